@@ -5,12 +5,14 @@
   * A program is a control-flow graph over syntax-tree nodes (`Graph`) plus an abstract,
     deterministic semantics of closures (`Prog σ`): running (a segment of) a closure in an abstract
     state yields the next state and what the closure does: return its successor closure, call
-    `runCfg` on another entry node, or panic. A closure has an identity (`owner`: the node whose
-    generator made it) and the identity of its *code* (`code`: what `reflect.Value.Pointer()`
-    returns, shared by all closures made by one generator function literal).
+    `runCfg` on another entry node, or panic. A closure has an `owner` (the node it executes: the
+    node whose generator made it, or, for a forwarding closure of `setExec`, the node it forwards
+    to), the identity of its *code* (`code`: what `reflect.Value.Pointer()` returns, shared by all
+    closures made by one generator function literal) and the identity of the closure object itself
+    (`id`: what `execID` returns).
   * `pstep`  : one step of the PLAIN loop   `for exec := n.exec; exec != nil; { exec = exec(f) }`
   * `dstep`  : one step of the DEBUG loop   `for m, exec := n, n.exec; ; { dbg.exec(m, f); exec = exec(f);
-                                              m = re-derived from the code of exec }`
+                                              m = re-derived from the identity of exec }`
     Both are machines over an explicit stack of `runCfg` activations (a call closure suspends, the
     callee's loop runs, the call closure resumes).
   * `dbgExec` : `(*Debugger).exec` — modes, fDepth/fStep, breakpoints, events, resume commands.
@@ -47,8 +49,16 @@ structure DebugLoopFacts where
   loopOrder : List String
   /-- the cases of the node re-derivation switch, in source order -/
   probeOrder : List String
-  /-- isExecNode compares `reflect.ValueOf(n.exec).Pointer()` with `reflect.ValueOf(exec).Pointer()` -/
-  cmpByPointer : Bool
+  /-- what isExecNode compares: "closure-identity" (`execID(n.exec) == execID(exec)`) or
+      "code-pointer" (`reflect.ValueOf(n.exec).Pointer() == reflect.ValueOf(exec).Pointer()`) -/
+  execCmp : String
+  /-- isExecNode also accepts the forwarding closure recorded in `n.debug.forward` -/
+  acceptsForward : Bool
+  /-- the test of originalExecNode's callback: "isExecNode" or "code-pointer" -/
+  origCmp : String
+  /-- what setExec installs on the target of a back edge: "forward-recorded" (setForwardExec
+      stores the forwarding closure in `n.debug.forward` too) or "forward-unrecorded" -/
+  backEdge : String
   /-- the cases of the switch of `(*Debugger).exec`, in source order -/
   caseOrder : List String
   /-- operator of `g.fDepth OP g.fStep` that lets execution continue in step-over mode -/
@@ -66,6 +76,12 @@ structure LoopFacts where
   /-- the closure is executed before the debugger is consulted -/
   execFirst : Bool
   probes : List Probe
+  /-- isExecNode compares closure objects (else: their code) -/
+  byIdentity : Bool
+  /-- isExecNode accepts the forwarding closure recorded on the node -/
+  forward : Bool
+  /-- originalExecNode tests nodes with isExecNode (else: compares code) -/
+  origIsExec : Bool
   overCmp : Cmp
   outCmp : Cmp
   deriving DecidableEq, Repr
@@ -77,6 +93,9 @@ def idxOf (s : String) : List String → Nat
 def LoopFacts.ofRaw (r : DebugLoopFacts) : LoopFacts :=
   { execFirst := decide (idxOf "exec" r.loopOrder < idxOf "dbg.exec" r.loopOrder),
     probes := r.probeOrder.filterMap fun s => if s = "tnext" then some .tnext else if s = "fnext" then some .fnext else none,
+    byIdentity := decide (r.execCmp = "closure-identity"),
+    forward := r.acceptsForward,
+    origIsExec := decide (r.origCmp = "isExecNode"),
     overCmp := Cmp.ofString r.overCmp,
     outCmp := Cmp.ofString r.outCmp }
 
@@ -85,6 +104,10 @@ def LoopFacts.ofRaw (r : DebugLoopFacts) : LoopFacts :=
 structure Node where
   /-- identity of the code of `n.exec` (0: `n.exec == nil`) -/
   code : Nat := 0
+  /-- identity of the closure object `n.exec` (`execID(n.exec)`) -/
+  clo : Nat := 0
+  /-- identity of the forwarding closure recorded in `n.debug.forward` (0: none) -/
+  fwd : Nat := 0
   tnext : Option Nat := none
   fnext : Option Nat := none
   line : Nat := 0
@@ -102,6 +125,8 @@ structure Node where
 abbrev Graph := Array Node
 
 def Graph.code (g : Graph) (i : Nat) : Nat := match g[i]? with | some n => n.code | none => 0
+def Graph.clo (g : Graph) (i : Nat) : Nat := match g[i]? with | some n => n.clo | none => 0
+def Graph.fwd (g : Graph) (i : Nat) : Nat := match g[i]? with | some n => n.fwd | none => 0
 def Graph.tnext (g : Graph) (i : Nat) : Option Nat := match g[i]? with | some n => n.tnext | none => none
 def Graph.fnext (g : Graph) (i : Nat) : Option Nat := match g[i]? with | some n => n.fnext | none => none
 def Graph.line (g : Graph) (i : Nat) : Nat := match g[i]? with | some n => n.line | none => 0
@@ -109,19 +134,21 @@ def Graph.posValid (g : Graph) (i : Nat) : Bool := match g[i]? with | some n => 
 def Graph.parent (g : Graph) (i : Nat) : Option Nat := match g[i]? with | some n => n.parent | none => none
 def Graph.children (g : Graph) (i : Nat) : List Nat := match g[i]? with | some n => n.children | none => []
 
-/-- a generated closure: the node whose generator made it, and the identity of its code -/
+/-- a generated closure: the node it executes, the identity of its code, the identity of the
+    closure object -/
 structure Clo where
   owner : Nat
   code : Nat
+  id : Nat := 0
   deriving DecidableEq, Repr
 
 /-- the closure stored in `n.exec` -/
-def nodeClo (g : Graph) (k : Nat) : Clo := ⟨k, g.code k⟩
+def nodeClo (g : Graph) (k : Nat) : Clo := ⟨k, g.code k, g.clo k⟩
 /-- `n.exec` as `runCfg(n, …)` reads it: nothing to run when it is nil -/
 def entryClo (g : Graph) (s : Nat) : Option Clo := if g.code s = 0 then none else some (nodeClo g s)
 /-- the pseudo closure that stands for `Execute` itself (it calls `runCfg` for the global
     declarations, the init functions and main) -/
-def baseClo : Clo := ⟨0, 0⟩
+def baseClo : Clo := ⟨0, 0, 0⟩
 
 /-! ### abstract semantics of closures -/
 
@@ -280,46 +307,54 @@ def dbgExec (F : LoopFacts) (g : Graph) (marked : Nat → Bool) (d : Dbg) (m : O
 
 /-! ### re-derivation of the current node -/
 
-/-- `isExecNode(k, exec)` -/
-def isExec (g : Graph) (k : Option Nat) (code : Nat) : Bool :=
+/-- `isExecNode(k, exec)`: `k.exec` and `exec` are the same closure object (unchanged code before
+    d1e6c4c: have the same code), or `exec` is the forwarding closure recorded on `k` -/
+def isExec (F : LoopFacts) (g : Graph) (k : Option Nat) (c : Clo) : Bool :=
   match k with
   | none => false
-  | some j => g.code j != 0 && g.code j == code
+  | some j =>
+    g.code j != 0 &&
+      ((if F.byIdentity then g.clo j == c.id else g.code j == c.code) ||
+       (F.forward && g.fwd j != 0 && g.fwd j == c.id))
+
+/-- the test of the callback of `originalExecNode` on node `i` -/
+def origTest (F : LoopFacts) (g : Graph) (i : Nat) (c : Clo) : Bool :=
+  if F.origIsExec then isExec F g (some i) c else (g.code i != 0 && g.code i == c.code)
 
 /-- the callback of `originalExecNode` over the subtrees listed in `todo` (pre-order): the last
-    node, other than `self`, whose closure has this code; the subtree below a match is not visited -/
-def walkLast (g : Graph) (self code : Nat) : Nat → List Nat → Option Nat → Option Nat
+    node, other than `self`, that passes the test; the subtree below a match is not visited -/
+def walkLast (F : LoopFacts) (g : Graph) (self : Nat) (c : Clo) : Nat → List Nat → Option Nat → Option Nat
   | 0, _, acc => acc
   | _, [], acc => acc
   | fuel + 1, i :: rest, acc =>
-    if i ≠ self ∧ g.code i ≠ 0 ∧ g.code i = code then walkLast g self code fuel rest (some i)
-    else walkLast g self code fuel (g.children i ++ rest) acc
+    if i ≠ self ∧ origTest F g i c = true then walkLast F g self c fuel rest (some i)
+    else walkLast F g self c fuel (g.children i ++ rest) acc
 
-def origUp (g : Graph) (self code : Nat) : Nat → Nat → Option Nat
+def origUp (F : LoopFacts) (g : Graph) (self : Nat) (c : Clo) : Nat → Nat → Option Nat
   | 0, _ => none
   | fuel + 1, cur =>
     match g.parent cur with
     | none => none
     | some p =>
-      match walkLast g self code (g.size + 1) [p] none with
+      match walkLast F g self c (g.size + 1) [p] none with
       | some r => some r
-      | none => origUp g self code fuel p
+      | none => origUp F g self c fuel p
 
 /-- `originalExecNode(self, exec)` -/
-def orig (g : Graph) (self code : Nat) : Option Nat := origUp g self code (g.size + 1) self
+def orig (F : LoopFacts) (g : Graph) (self : Nat) (c : Clo) : Option Nat := origUp F g self c (g.size + 1) self
 
 def probe (g : Graph) (i : Nat) : Probe → Option Nat
   | .tnext => g.tnext i
   | .fnext => g.fnext i
 
-/-- the end of the body of the debugger loop: the node that goes with closure code `code` -/
-def rederive (F : LoopFacts) (g : Graph) (start : Nat) (m : Option Nat) (code : Nat) : Option Nat :=
+/-- the end of the body of the debugger loop: the node that goes with closure `c` -/
+def rederive (F : LoopFacts) (g : Graph) (start : Nat) (m : Option Nat) (c : Clo) : Option Nat :=
   match m with
-  | none => orig g start code
+  | none => orig F g start c
   | some i =>
-    match F.probes.find? (fun p => isExec g (probe g i p) code) with
+    match F.probes.find? (fun p => isExec F g (probe g i p) c) with
     | some p => probe g i p
-    | none => orig g i code
+    | none => orig F g i c
 
 /-! ### the debug loop -/
 
@@ -378,8 +413,8 @@ def dapply (S : Setup) (d : DCfg σ) (a : Act) : DCfg σ :=
       if S.F.execFirst then
         let r := consult S d fr
         if r.1 then leave r.2 rest
-        else { r.2 with stack := ⟨c', fr.start, rederive S.F S.g fr.start fr.m c'.code⟩ :: rest, ctl := .start }
-      else { d with stack := ⟨c', fr.start, rederive S.F S.g fr.start fr.m c'.code⟩ :: rest, ctl := .start }
+        else { r.2 with stack := ⟨c', fr.start, rederive S.F S.g fr.start fr.m c'⟩ :: rest, ctl := .start }
+      else { d with stack := ⟨c', fr.start, rederive S.F S.g fr.start fr.m c'⟩ :: rest, ctl := .start }
     | .call s (some e) => { d with stack := ⟨e, s, some s⟩ :: fr :: rest, dbg := d.dbg.enter, ctl := .start }
     | .call _ none => { d with ctl := .resume }
     | .panic => { d with ctl := .halt true }
@@ -470,23 +505,41 @@ def place (g : Graph) (root : Nat) (rs : List BpReq) : List Nat :=
   let order := preorder g (g.size + 1) [root]
   placeLines g (reqLines rs) order [] ++ placeFuncs g (reqFuncs rs) order []
 
-/-! ### the domain of the partial theorem -/
+/-! ### hypotheses of the tracking theorems -/
 
-/-- the two successors of every branching node are made by different generators (decidable) -/
+/-- the closure objects that stand for node `k`: `k.exec` and, if there is one, the forwarding
+    closure recorded on `k` (none while `k.exec` is nil: no closure generated yet) -/
+def idsOf (g : Graph) (k : Nat) : List Nat :=
+  if g.code k = 0 then [] else g.clo k :: (if g.fwd k = 0 then [] else [g.fwd k])
+
+/-- well-formedness of the graph data: the two successors of a branching node are represented by
+    different closure objects (every closure made by a generator, and every forwarding closure, is
+    an object of its own). Decidable; checked on every graph dumped from the implementation. -/
+def idSeparates (g : Graph) : Bool :=
+  g.toList.all fun n =>
+    match n.tnext, n.fnext with
+    | some t, some f => t == f || (idsOf g t).all fun a => !(idsOf g f).contains a
+    | _, _ => true
+
+/-- the domain of the unchanged code (before d1e6c4c): the two successors of every branching node
+    are made by different generators -/
 def codeSeparates (g : Graph) : Bool :=
   g.toList.all fun n =>
     match n.tnext, n.fnext with
     | some t, some f => t == f || g.code t != g.code f
     | _, _ => true
 
-/-- `c'` is the closure of a control-flow successor of node `i` -/
+/-- `c'` is a closure that executes a control-flow successor `k` of node `i`: the closure stored
+    in `k.exec`, or the forwarding closure that setExec recorded on `k` (a back edge: the
+    predecessor was generated while `k` was being generated) -/
 def IsSucc (g : Graph) (i : Nat) (c' : Clo) : Prop :=
-  ∃ k, c' = nodeClo g k ∧ g.code k ≠ 0 ∧ (g.tnext i = some k ∨ g.fnext i = some k)
+  ∃ k, g.code k ≠ 0 ∧ (g.tnext i = some k ∨ g.fnext i = some k) ∧ c'.owner = k ∧
+    (c' = nodeClo g k ∨ (g.fwd k ≠ 0 ∧ c'.id = g.fwd k))
 
-/-- the closures do what the graph says: a closure hands over to the closure stored in its
-    node's tnext or fnext, and `runCfg` is entered with the closure stored in the entry node.
-    (The generators of interp/run.go capture `getExec(n.tnext)`; what setExec hands out for a back
-    edge is a forwarding closure with a code of its own, which this excludes.) -/
+/-- the closures do what the graph says: a closure hands over to a closure of its node's tnext or
+    fnext (the generators of interp/run.go capture `getExec(n.tnext)`, which for a back edge is the
+    forwarding closure of setForwardExec), and `runCfg` is entered with the closure stored in the
+    entry node. -/
 def Respects (g : Graph) (P : Prog σ) : Prop :=
   ∀ st c r,
     match (P.step st c r).2 with
